@@ -4,9 +4,9 @@ From Msm Require Import Run Lemmas_C19 Lemmas_Rows Lemmas_Regions.
 (* external transition between simple states, back / back11: guard, source exit, action, target entry - each once,
    in this order (expected_items lists them most recent first) - and afterwards the region is at the target,
    every other region, the history, the queues and all submachine nodes are unchanged *)
-Theorem C02_external_order_back : forall cf mc fuel r rid cur nxt ev rn g,
+Theorem C02_external_order_back : forall cf contained mc fuel r rid cur nxt ev rn g,
   plain_state mc nxt -> c_pol cf < 4 -> g_plan g = [] -> memb rid (g_val g) = true ->
-  exec_row cf mc (no_children mc) fuel r (Row rid cur (TrEv (e_ty ev)) (TgState nxt) true ActCall None) ev rn g =
+  exec_row cf contained mc (no_children mc) fuel r (Row rid cur (TrEv (e_ty ev)) (TgState nxt) true ActCall None) ev rn g =
     (Some HANDLED_TRUE, set_act rn (upd (act rn) r nxt),
      Glob (expected_items (c_pol cf) r cur nxt rid ev (act rn) ++ g_tr g) (4 + g_cb g) [] (g_val g) (g_up g) (g_bad g)).
 Proof. exact back_exec_row_observed. Qed.
@@ -22,9 +22,9 @@ Proof. exact mp11_exec_row_observed. Qed.
 Print Assumptions C02_external_order_mp11.
 
 (* an internal transition runs only its guard and action and leaves the whole runtime state untouched *)
-Theorem C02_internal_back : forall cf mc children fuel r rid src ev rn g,
+Theorem C02_internal_back : forall cf contained mc children fuel r rid src ev rn g,
   g_plan g = [] -> memb rid (g_val g) = true ->
-  exec_row cf mc children fuel r (Row rid src (TrEv (e_ty ev)) TgNone true ActCall None) ev rn g =
+  exec_row cf contained mc children fuel r (Row rid src (TrEv (e_ty ev)) TgNone true ActCall None) ev rn g =
     (Some HANDLED_TRUE, rn, bump g [Cb KAction [] rid ev false (act rn); Cb (KGuard true) [] rid ev false (act rn)]).
 Proof. exact back_internal_row. Qed.
 Print Assumptions C02_internal_back.
@@ -37,9 +37,9 @@ Proof. exact mp11_internal_row. Qed.
 Print Assumptions C02_internal_mp11.
 
 (* a rejected guard causes no exit, action, entry or state change at all - for every kind of row *)
-Theorem C02_rejected_back : forall cf mc children fuel r x ev rn g,
+Theorem C02_rejected_back : forall cf contained mc children fuel r x ev rn g,
   g_plan g = [] -> r_guard x = true -> memb (r_id x) (g_val g) = false -> r_exitpt x = None ->
-  exec_row cf mc children fuel r x ev rn g =
+  exec_row cf contained mc children fuel r x ev rn g =
     (Some HANDLED_GUARD_REJECT, rn, bump g [Cb (KGuard false) [] (r_id x) ev false (act rn)]).
 Proof. exact back_rejected_row. Qed.
 Print Assumptions C02_rejected_back.
@@ -52,13 +52,13 @@ Proof. exact mp11_rejected_row. Qed.
 Print Assumptions C02_rejected_mp11.
 
 (* cascades: leaving / starting a machine visits its regions in declaration order, one exit / entry per region *)
-Theorem C02_exit_cascade_in_region_order : forall mc children fuel ev n r rn g,
-  exit_regions mc children fuel ev n r rn g = iterM (exit_step mc children fuel ev) (seqn r n) rn g.
+Theorem C02_exit_cascade_in_region_order : forall contained mc children fuel ev n r rn g,
+  exit_regions contained mc children fuel ev n r rn g = iterM (exit_step contained mc children fuel ev) (seqn r n) rn g.
 Proof. exact exit_regions_seq. Qed.
 Print Assumptions C02_exit_cascade_in_region_order.
 
-Theorem C02_entry_cascade_in_region_order : forall cf mc children fuel ev n r rn g,
-  start_regions cf mc children fuel ev n r rn g = iterM (entry_step cf mc children fuel ev) (seqn r n) rn g.
+Theorem C02_entry_cascade_in_region_order : forall cf contained mc children fuel ev n r rn g,
+  start_regions cf contained mc children fuel ev n r rn g = iterM (entry_step cf contained mc children fuel ev) (seqn r n) rn g.
 Proof. exact start_regions_seq. Qed.
 Print Assumptions C02_entry_cascade_in_region_order.
 
